@@ -25,7 +25,7 @@ def clean(wt):
     sh('git checkout -- . && git clean -fdq', wt)
 
 
-def confirm(wt, patch, demo, pkgdir='.'):
+def confirm(wt, patch, demo, pkgdir='.', flags=''):
     clean(wt)
     dst = os.path.join(wt, pkgdir, 'zz_' + os.path.basename(demo))
     res = {}
@@ -34,7 +34,7 @@ def confirm(wt, patch, demo, pkgdir='.'):
     runarg = "-run '^(%s)$'" % '|'.join(names)
     try:
         shutil.copy(demo, dst)
-        rc, out = sh('go test -count=1 %s ./%s' % (runarg, pkgdir), wt)
+        rc, out = sh('go test -count=1 %s %s ./%s' % (flags, runarg, pkgdir), wt)
         res['demo_passes_on_clean'] = rc == 0
         os.remove(dst)
         rc, out = sh('git apply %s' % patch, wt)
@@ -46,7 +46,7 @@ def confirm(wt, patch, demo, pkgdir='.'):
         if rc != 0:
             res['suite_output'] = out[-2000:]
         shutil.copy(demo, dst)
-        rc, out = sh('go test -count=1 %s ./%s' % (runarg, pkgdir), wt)
+        rc, out = sh('go test -count=1 %s %s ./%s' % (flags, runarg, pkgdir), wt)
         res['demo_fails_with_patch'] = rc != 0
         res['demo_output'] = '\n'.join(l for l in out.splitlines() if 'FAIL' in l or 'panic' in l or 'Error' in l or '---' in l)[:1500]
     finally:
